@@ -13,3 +13,4 @@ CONSTANTS
   InitViaQueue = FALSE
   ClearCache = TRUE
 INVARIANTS TypeOK NoEventAfterTerminated
+ALIAS BehAlias
